@@ -8,13 +8,7 @@ import layoutlib as L
 import vlib
 
 MANIFEST = {
-    "text": "For each program the real VM's retired states and the real analysis' layout are compared INSIDE Coq: every literal storage "
-            "key of every explored path (other than the keccak hash of a small slot number) must have at least one layout entry at "
-            "exactly that 256-bit index. Inputs cover small keys, keys >= 2^64, >= 2^128, 2^256-1, EIP-1967 constants, read-only / "
-            "write-only / mixed use, buried in unrelated code. VM-level facts (SLOAD of a fresh key creates a generation, SSTORE "
-            "appends, every retired thread's state is collected) follow from the VM model's theorems and correspondence; the lifting "
-            "passes keep literal keys (stage lemmas, for all trees and all 256-bit keys) in the lifting-pass development; the chain "
-            "through registration/unification/abi is searched, not proved (partial).",
+    "text": "For each program the real VM's retired states and the real analysis' layout are compared INSIDE Coq: every literal storage key of every explored path (other than the keccak hash of a small slot number) must have at least one layout entry at exactly that 256-bit index. Inputs cover small keys, keys >= 2^64, >= 2^128, 2^256-1, EIP-1967 constants, read-only / write-only / mixed use, buried in unrelated code. VM-level facts (SLOAD of a fresh key creates a generation, SSTORE appends, every retired thread's state is collected) follow from the VM model's theorems and correspondence; the six slot passes keep a literal key and wrap it as a slot (pass_keeps_literal_key, C06_exposed_literal_key: all trees, all 256-bit keys outside the hash table; literal_key_anywhere_refuted documents the positions under Add/Sha3 where a key is consumed by a mapping/array pattern); inference keeps every StorageSlot{constant} among the values (rule_keeps_slot); the layout loop emits at least one row whose index is the full 256-bit key for every constant slot, whatever unification produced (const_slot_row, layout_row_per_const_slot). These stage models are tied to the code by per-run correspondence; the end-to-end chain is additionally searched on real runs.",
     "note": "Trusted: Coq kernel for the predicate; keccak table by the sha3 crate in the harness; harness; hook H2.",
     "technique": "coverage predicate evaluated inside Coq on the real VM states and the real layout; Coq stage lemmas (VM, lifting passes)",
 }
@@ -91,6 +85,9 @@ def check(ctx):
         ctx.coverage.update({"evaluations": len(keys), "distinct_nontrivial": ok_layouts,
                              "input_classes": dict(collections.Counter(progs.values())),
                              "analysis_classes": dict(collections.Counter(str(L.xa_class(a)) for a in ano))})
+    import p_tc_stages as TS
+    TS.suite(ctx, translate=False, parts=("abi",), codes={"abi": {21}}, cov_key="tc_stages",
+             only=r"^(rule_keeps_slot|const_slot_row|layout_row_per_const_slot)")
     import p_passes_slots
     p_passes_slots.suite(ctx, translate=False, codes={11}, cov_key="lifting_passes_slots", only=r"^(pass_keeps|C06_|unwritten_|literal_key|default_pipeline_shape)")
     return vlib.finish(ctx, rule="distinct programs; non-trivial = the analysis succeeded with a non-empty layout (every literal key of "
